@@ -61,7 +61,14 @@ the XML of the shape serialised and re-parsed with *bare* lxml (no python-pptx e
     (quick: m and the second vertex also over {-2,-0.5,2.5}^2; thorough: over all 25 points);
     close/open (the same flag for both contours); scale in
     {1, 2.5, (1,3), (0.5,2)}; `convert_to_shape(origin)` for origin in {(0,0),(7,-3)} (both origins are
-    converted from the same builder, as its docstring allows).
+    converted from the same builder, as its docstring allows, i.e. "convert twice without drawing in
+    between").
+    BUILDER REUSE family ("may be called more than once", with drawing in between): start, S1 of 0 or 1
+    vertex over {-2,-0.5,2.5}^2, `convert_to_shape((0,0))`, then S2 = 1 or 2 more pen positions, either
+    continuing with add_line_segments or opening a new contour with move_to (quick: over {-2,-0.5,2.5}^2
+    and scales {1,(0.5,2)}; thorough: over all 25 points and all 4 scales), `convert_to_shape((7,-3))` on
+    the SAME builder. S2 includes positions that extend the bounding box to the left/top and ones that do
+    not. Both shapes must satisfy the oracle with respect to the vertices drawn up to their conversion.
     Oracle (geom_ref): left/top/width/height (API and bare `a:off/a:ext`) equal the scaled bounding box
     of the vertices (start and move-to points included) offset by the origin. Weaker reading: the
     documented "rounded to the nearest integer before use" is honoured with ANY consistent tie rule
@@ -74,7 +81,7 @@ Signatures:  C17|connector|<rule>|op=<coord>|from=<lt|eq|gt>,to=<lt|eq|gt>,flip=
              makes one signature per defect rather than one per nesting depth; `off-path` for a group
              that is not an ancestor); suffix `|after-resize` when a group on the path had been
              moved/resized through the setters          C17|group-child-extents|... (only chOff/chExt wrong)
-             C17|freeform|<rule>|<class>
+             C17|freeform|<rule>|<class>[|builder-reuse]   (suffix: second shape of a reused builder)
 """
 
 from __future__ import annotations
@@ -910,6 +917,18 @@ def _ff_expected(case, origin, rnd):
     return (origin[0] + min(rx) * xs, origin[1] + min(ry) * ys, (max(rx) - min(rx)) * xs, (max(ry) - min(ry)) * ys)
 
 
+def _ff_new(shapes, case):
+    sc = case["scale"]
+    scale = tuple(sc) if isinstance(sc, (list, tuple)) else sc
+    return shapes.build_freeform(case["start"][0], case["start"][1], scale=scale)
+
+
+def _ff_draw(b, c, close):
+    if c.get("move") is not None:
+        b.move_to(c["move"][0], c["move"][1])
+    b.add_line_segments([tuple(v) for v in c["verts"]], close=close)
+
+
 def _ff_build(shapes, case):
     sc = case["scale"]
     scale = tuple(sc) if isinstance(sc, (list, tuple)) else sc
@@ -1005,6 +1024,55 @@ def _ff_cases(item, thorough):
                                "close": close, "scale": list(scale) if isinstance(scale, tuple) else scale}
 
 
+FF_REUSE_SCALES_QUICK = (1, (0.5, 2))
+
+
+def _ff_reuse_params(thorough):
+    pts = FF_POINTS if thorough else FF_POINTS_SMALL
+    scales = FF_SCALES if thorough else FF_REUSE_SCALES_QUICK
+    # S2 forms: continue drawing ("line") or start a new contour ("move": move_to(v1) then the rest)
+    forms = []
+    for how in ("line", "move"):
+        forms.extend((how, [v]) for v in pts)
+        forms.extend((how, [v1, v2]) for v1 in pts for v2 in pts)
+    return forms, scales
+
+
+def _ff_reuse_cases(item, thorough):
+    """Builder-reuse family: start, S1 (0 or 1 vertex), convert at origin 1, then S2 (1 or 2 more pen
+    positions, continuing the contour or opening a new one with move_to), convert at origin 2.
+    Yields (case, split) where case describes everything drawn and split = number of contours drawn
+    before the first conversion (always 1)."""
+    _, start, first = item
+    forms, scales = _ff_reuse_params(thorough)
+    for how, vs in forms:
+        if how == "line":
+            second = {"verts": [list(v) for v in vs]}
+        else:
+            second = {"move": list(vs[0]), "verts": [list(v) for v in vs[1:]]}
+        for scale in scales:
+            yield ({"start": list(start), "contours": [{"verts": [list(v) for v in first]}, second],
+                    "close": True, "scale": list(scale) if isinstance(scale, tuple) else scale}, 1)
+
+
+def _ff_reuse_run(shapes, case, split, origins):
+    """Draw contours[:split], convert at origins[0], draw the rest with the SAME builder, convert at
+    origins[1]. Each produced shape is checked against the vertices drawn up to its conversion. Returns
+    [(stage, shape, [(rule, class, message)])]."""
+    b = _ff_new(shapes, case)
+    out = []
+    for c in case["contours"][:split]:
+        _ff_draw(b, c, case["close"])
+    part1 = dict(case, contours=case["contours"][:split])
+    shp = b.convert_to_shape(origins[0][0], origins[0][1])
+    out.append((1, shp, _ff_check(shp, part1, tuple(origins[0]))))
+    for c in case["contours"][split:]:
+        _ff_draw(b, c, case["close"])
+    shp = b.convert_to_shape(origins[1][0], origins[1][1])
+    out.append((2, shp, _ff_check(shp, case, tuple(origins[1]))))
+    return out
+
+
 def _ff_items(thorough):
     items = []
     for start in FF_STARTS:
@@ -1015,6 +1083,10 @@ def _ff_items(thorough):
         items.append(("double", start, ()))
         for p in FF_POINTS_SMALL:
             items.append(("double", start, (p,)))
+    for start in FF_STARTS:
+        items.append(("reuse", start, ()))
+        for p in FF_POINTS_SMALL:
+            items.append(("reuse", start, (p,)))
     return items
 
 
@@ -1024,7 +1096,13 @@ def _ff_expected_count(thorough):
     single = len(FF_STARTS) * nlists
     npts = len(FF_POINTS if thorough else FF_POINTS_SMALL)
     double = len(FF_STARTS) * (1 + len(FF_POINTS_SMALL)) * npts * (1 + npts)
-    return (single + double) * 2 * len(FF_SCALES) * len(FF_ORIGINS)
+    return (single + double) * 2 * len(FF_SCALES) * len(FF_ORIGINS) + 2 * _ff_expected_reuse_builders(thorough)
+
+
+def _ff_expected_reuse_builders(thorough):
+    n = len(FF_POINTS if thorough else FF_POINTS_SMALL)
+    nscales = len(FF_SCALES if thorough else FF_REUSE_SCALES_QUICK)
+    return len(FF_STARTS) * (1 + len(FF_POINTS_SMALL)) * 2 * (n + n * n) * nscales
 
 
 _FF_THOROUGH = False
@@ -1036,6 +1114,9 @@ def _ff_work(part, chunk):
     spTree = shapes.element
     nsample = 0
     for item in chunk:
+        if item[0] == "reuse":
+            _ff_reuse_work(part, slide, item)
+            continue
         for case in _ff_cases(item, _FF_THOROUGH):
             replay = {"sys": "freeform", "case": case, "origins": [list(o) for o in FF_ORIGINS]}
             try:
@@ -1071,6 +1152,57 @@ def _ff_work(part, chunk):
                     and item[1] == (1.5, -2) and item[2][0] == (-0.5, 2.5) and case["scale"] == [0.5, 2]:
                 nsample += 1
                 part.sample({"sys": "freeform", "case": case})
+
+
+def _ff_reuse_work(part, slide, item):
+    shapes = slide.shapes
+    spTree = shapes.element
+    origins = [list(o) for o in FF_ORIGINS]
+    for case, split in _ff_reuse_cases(item, _FF_THOROUGH):
+        replay = {"sys": "freeform-reuse", "case": case, "split": split, "origins": origins}
+        part.count("ff_reuse_builders")
+        part.count("transitions", 2)
+        part.count("ff_shapes", 2)
+        try:
+            res = _ff_reuse_run(shapes, case, split, origins)
+        except Exception as e:  # noqa
+            part.violation("C17|freeform|raised|reuse|%s" % type(e).__name__,
+                           "draw, convert, draw, convert of %r raised %r" % (case, e), replay)
+            _g_clean_slide(slide, None)
+            continue
+        part.count("traces_validated_against_impl", 2)
+        p1 = _ff_points(dict(case, contours=case["contours"][:split]))
+        p2 = _ff_points(case)
+        # rounding is monotone, so comparing the raw minima decides "extends to the left / top" except
+        # for values within one rounding step, which the alphabet keeps apart or equal
+        left = min(_r_even(p[1]) for p in p2) < min(_r_even(p[1]) for p in p1)
+        up = min(_r_even(p[2]) for p in p2) < min(_r_even(p[2]) for p in p1)
+        if left or up:
+            part.count("ff_reuse_extends_left_or_top")
+            part.count("nontrivial_count", 2)
+        else:
+            part.count("ff_reuse_not_extending_left_or_top")
+        part.outcome("freeform.reuse-" + ("move" if case["contours"][1].get("move") is not None else "line"),
+                     "left=%d,up=%d" % (left, up))
+        for stage, shp, bad in res:
+            for rule, cls, msg in bad:
+                part.violation("C17|freeform|%s|%s|%s" % (rule, cls, "builder-reuse-first" if stage == 1 else "builder-reuse"),
+                               "shape %d of one builder (drawn, converted at %r, drawn further, converted at %r): %s" % (
+                                   stage, tuple(origins[0]), tuple(origins[1]), msg), replay)
+            spTree.remove(shp.element)
+        if item[1] == (1.5, -2) and item[2] == ((-0.5, 2.5),) and case["scale"] == [0.5, 2] \
+                and case["contours"][1] == {"move": [-2, -2], "verts": [[2.5, -0.5]]}:
+            part.sample({"sys": "freeform-reuse", "case": case, "split": split})
+
+
+def _ff_reuse_replay(data):
+    _prs, slide = _blank_slide()
+    try:
+        res = _ff_reuse_run(slide.shapes, data["case"], data["split"], data["origins"])
+    except Exception as e:  # noqa
+        return "draw, convert, draw, convert of %r raised %r" % (data["case"], e)
+    msgs = ["shape %d: %s|%s: %s" % (stage, r, c, m) for stage, _shp, bad in res for r, c, m in bad]
+    return "; ".join(msgs) or None
 
 
 def _ff_replay(data):
@@ -1187,11 +1319,20 @@ def run(ctx):
     exp_ff = _ff_expected_count(thorough)
     if ff != exp_ff and not any(v[0].startswith("C17|freeform|raised|build") for v in ctx.violations):
         raise HarnessError("freeform shapes %d != closed form %d" % (ff, exp_ff))
+    if ctx.counters.get("ff_reuse_builders", 0) != _ff_expected_reuse_builders(thorough) and not ctx.violations:
+        raise HarnessError("freeform reuse builders %d != closed form %d" % (
+            ctx.counters.get("ff_reuse_builders", 0), _ff_expected_reuse_builders(thorough)))
+    if not ctx.violations and not (ctx.counters.get("ff_reuse_extends_left_or_top", 0)
+                                   and ctx.counters.get("ff_reuse_not_extending_left_or_top", 0)):
+        raise HarnessError("freeform reuse family vacuous: no case extends / does not extend the box to the left/top")
     # every freeform shape is a distinct state (pen x close x scale x origin), one transition each
     ctx.extra["freeform"] = {
         "states": ff, "transitions": ff,
         "traces_validated": ctx.counters.get("traces_validated_against_impl", 0) - before.get("traces_validated_against_impl", 0),
         "builders": ff // len(FF_ORIGINS), "first_contour_max_vertices": 3 if thorough else 2,
+        "reuse_builders(draw,convert,draw,convert)": ctx.counters.get("ff_reuse_builders", 0),
+        "reuse_second_drawing_extends_left_or_top": ctx.counters.get("ff_reuse_extends_left_or_top", 0),
+        "reuse_second_drawing_not_extending": ctx.counters.get("ff_reuse_not_extending_left_or_top", 0),
         "second_contour_coordinate_alphabet": list(FF_COORDS if thorough else FF_COORDS_SMALL),
     }
     # the framework reads counters["states"] before sets["states"]: publish the total explicitly
@@ -1206,4 +1347,6 @@ def replay(data):
         return _g_replay(data)
     if s == "freeform":
         return _ff_replay(data)
+    if s == "freeform-reuse":
+        return _ff_reuse_replay(data)
     raise ValueError(s)
